@@ -8,22 +8,24 @@ SPEC = {
     "rule": "sFlow v5 datagrams encoded from an abstract datagram by the harness's own XDR encoder: 0..5 samples of "
             "flow / counter / expanded / unknown / enterprise type, 0..4 records each (raw header Ethernet(+-802.1Q)/IPv4/IPv6 x "
             "TCP/UDP/ICMP(1 and 58 after either network layer), all 24 layer combinations incl. header protocol 11/12, every header field over its full range incl. the version nibble and the three TCP reserved bits, IPv4 options in a quarter of the IPv4 headers (IHL 6..15: random octets, real options, octets that read as a transport header), header lengths 0..1500 and XDR padding; "
-            "one sampled header in five is one the packet structs cannot represent (cut at a marked or random offset inside the Ethernet header / 802.1Q tag / fixed IP header / IPv4 options / transport header, or to nothing; ARP, LACP, LLDP, MPLS, 802.1ad, QinQ and random ether types; IPv6 extension headers, GRE, ESP, OSPF, SCTP and random IP protocols; sFlow header protocols other than 1/11/12): expectation = record absent, everything else intact; "
+            "one sampled header in five is one the packet structs cannot represent (cut at a marked or random offset inside the Ethernet header / 802.1Q tag / fixed IP header / IPv4 options / transport header, or to nothing; ARP, LACP, LLDP, MPLS, 802.1ad, QinQ and random ether types; IPv6 extension headers, GRE, ESP, OSPF, SCTP and random IP protocols; sFlow header protocols other than 1/11/12): expectation = the record's own four words (header protocol, frame length, stripped, header length) without layers, everything else intact; "
+            "every raw-header record is expected with these four words as encoded (F33; the expectation's record is a struct of the harness's own), frame length / stripped over the full 32-bit range; "
             "flow-sample source id type and 24-bit index; extended switch, extended router v4/v6, address type 0 (length 12) and other lengths (0..64), the six "
             "counter layouts, unknown formats), IPv4/IPv6 agents; ~12% field-aware mutations (truncation, bit flip, boundary "
-            "values in length/count/format words, extended-router lengths, truncated sampled headers); kind dissect: "
+            "values in length/count/format words, extended-router lengths, truncated sampled headers; a quarter of the mutations of a datagram with a raw-header record aim at its HeaderLength word: 1500 / 1501..1504, "
+            "0x7fffffff, 0x80000000, 0xfffffffc..0xffffffff, 0..5, 1496..1499, with the octets behind it left alone, cut to none / one short / the padding missing, or replaced by 0..1600 fresh ones); kind dissect: "
             "packet.Decoder alone on encoded headers: the representable ones must dissect to the abstract packet, the unrepresentable ones must be an error (expectation E), 30% truncated/perturbed (incl. an IPv4 header-length nibble 0..15 that no longer matches the octets). non-trivial = the implementation returned a "
             "datagram/packet (not an error); distinct = distinct case line",
     "assumptions": ["Go semantics of bytes.Reader / encoding/binary.Read / slices as transcribed in Vflow.Model.Sflow and Vflow.Model.Packet",
                     "sampled headers: any octets, 0..1500, under any header protocol (F19a); the ones reported as RawHeader are Ethernet(+-one 802.1Q tag)|none x IPv4 with options 0..40 octets in multiples of 4 (IHL 5..15, any content)|IPv6 x TCP (reserved bits 0..7)|UDP|ICMP as the first IPv6 next header "
-                    "(what the packet structs can represent); every other sampled header leaves its record out and nothing else changes; an ICMP header cut after 5..7 of its 8 octets is reported with the RestHeader octets that are there, cut after 4 it is not (the code's threshold `len(b) < 5`, taken over by the oracle and by ATrans.need; named in DESIGN.md 13.2)"],
+                    "(what the packet structs can represent); every other sampled header is reported with the record's four words and no layers (F33; until then: record left out) and nothing else changes; of several raw-header records in one sample the last is the entry (Records is a map); an ICMP header cut after 5..7 of its 8 octets is reported with the RestHeader octets that are there, cut after 4 it is not (the code's threshold `len(b) < 5`, taken over by the oracle and by ATrans.need; named in DESIGN.md 13.2)"],
 }
 META = {
     "text": "Lean theorems about the executable model of sflow/*.go and packet/*.go (round trip decode (encode d) = expected d "
             "from the leaves upward: field lists, the six counter layouts, extended switch/router, raw header with XDR padding, "
             "flow/counter samples, unknown samples/records skipped by length, header with v4/v6 agent; dissector field-extraction "
             "theorems per layer, composed in dissect_encodeHeader for every Ethernet(+-802.1Q)|none x IPv4 (any options, IHL 5..15)|IPv6 x TCP|UDP|ICMP "
-            "combination; undissectable_header / header_cut: a header cut before the end of its transport header at any offset, a non-IP ether type incl. QinQ, an IP protocol without a struct incl. IPv6 extension headers, another header protocol is a dissector error; raw_record_dissectable / raw_record_undissectable: a raw-header record of ANY octets (0..1500) is consumed exactly and reported iff dissectable; "
+            "combination; undissectable_header / header_cut: a header cut before the end of its transport header at any offset, a non-IP ether type incl. QinQ, an IP protocol without a struct incl. IPv6 extension headers, another header protocol is a dissector error; raw_record_fields / raw_record_dissectable / raw_record_undissectable: a raw-header record of ANY octets (0..1500) is consumed exactly and reported with its own four words - header protocol, frame length, stripped, header length - as they are on the wire (F33), with the packet iff dissectable; "
             "decode_encode' over abstract headers of both kinds needing only well-formedness, its expected datagram not mentioning the dissector); the model is tied to the code by byte-for-byte comparison of json.Marshal output on generated "
             "datagrams, and the code is checked against the abstract datagram each case was encoded from. "
             "Regenerated and proved on every run (gen_dissect_*, gen_sflow_*): factgen translates the extraction code itself - every right-hand side with which "
@@ -34,12 +36,14 @@ META = {
             "enterprise = tag >> 12 / format = tag & 0xfff), the named dispatch constants and the three switch tables - into a small expression / row IR with a total evaluator; "
             "the model's field functions, its decoders and its fixed-layout readers are proved EQUAL to the meaning of the regenerated terms for every octet string "
             "(no sampling; structures built by field name), so a changed offset, shift, mask, width or read order in the source breaks a named proof; "
-            "the pre-fix expressions of F8, F15, F17, F19b, F19c are shown to evaluate differently from the model.",
+            "the pre-fix expressions of F8, F15, F17, F19b, F19c are shown to evaluate differently from the model. "
+            "F33: the raw-header record reported is built BY FIELD NAME through the regenerated composite literal of decodeSampledHeader (gen_sflow_raw_header), and the members the model "
+            "renders for it are the regenerated declarations of sflow.RawHeader and packet.Packet in order (gen_sflow_raw_header_struct).",
     "ref": "DESIGN.md §6 C07 / C18",
     "note": "Trusted: Lean kernel; hand-written model (Go reader/slice semantics transcribed; its field extraction and fixed-layout reads are no longer trusted: proved equal to the "
             "regenerated extraction code, which moves the trust to factgen's expression translator and the evaluator in Model/DissectIR.lean); harness generator, wire encoder "
             "and oracle bound what the tie sees. IPv4 options are inside the well-formed domain since F17; since F19 every sampled header is "
-            "(IPv6 extension headers, non-IP frames, truncated headers: record absent, rest intact), as are the source id index, the TCP reserved bits and extended-router records of any length.",
+            "(IPv6 extension headers, non-IP frames, truncated headers: since F33 the record's four words without layers, rest intact), as are the source id index, the TCP reserved bits and extended-router records of any length.",
     "technique": "Lean 4 round-trip proofs over a wire encoder + source-to-IR translation of the extraction code with equality proofs against the model "
                  "+ differential correspondence with sflow.SFDecode / packet.Decoder + abstract-datagram oracle",
 }
